@@ -369,10 +369,16 @@ def r11_10(ctx):
                     return True
         return False
     bad = {}
+    sides = {}
     for bi, d, ct in sites:
         for cond, truth, si in bool_guards(ctx, b, bi):
             if reads_transform(cond) and not singular_test(cond):
-                bad.setdefault(si, (cond, truth, d))
+                sides.setdefault(si, {}).setdefault(truth, (cond, truth, d))
+    for si, by in sides.items():
+        # a test with ops on both sides selects between two ways of adding them (an identity fast path); a test with
+        # ops on one side only decides whether they are added at all
+        if len(by) == 1:
+            bad[si] = list(by.values())[0]
     if not bad:
         ctx.ok(R, key + '|ops independent of the transform', b.loc(), 'no comparison on the transform decides whether an op is added (%d calls)' % len(sites))
     for si, (cond, truth, d) in sorted(bad.items()):
